@@ -200,6 +200,68 @@ M["m18-new-field-unclassified"] = ("a new field is added to IRCServer (guard map
 """)],
     [("<declared>", "IRCServer.motdCache", "unclassified")])
 
+M["a01-helper-returns-shallow-config-copy"] = ("handleGetConfig encodes a copy of Config returned by a helper that copied it under ConfigMu.RLock", [
+    ("internal/api/getconfig.go", """func (api *HTTP) handleGetConfig(w http.ResponseWriter, r *http.Request) {
+	w.Header().Set("Content-Type", "text/plain")
+
+	i := api.ircServer()
+	i.ConfigMu.RLock()
+	defer i.ConfigMu.RUnlock()
+	w.Header().Set("X-RobustIRC-Config-Revision", strconv.FormatUint(i.Config.Revision, 10))
+	if err := toml.NewEncoder(w).Encode(&i.Config); err != nil {""", """func (api *HTTP) currentNetworkConfig() config.Network {
+	i := api.ircServer()
+	i.ConfigMu.RLock()
+	defer i.ConfigMu.RUnlock()
+	return i.Config
+}
+
+func (api *HTTP) handleGetConfig(w http.ResponseWriter, r *http.Request) {
+	w.Header().Set("Content-Type", "text/plain")
+
+	cfg := api.currentNetworkConfig()
+	w.Header().Set("X-RobustIRC-Config-Revision", strconv.FormatUint(cfg.Revision, 10))
+	if err := toml.NewEncoder(w).Encode(&cfg); err != nil {"""),
+    ("internal/api/getconfig.go", """	"github.com/BurntSushi/toml"
+""", """	"github.com/BurntSushi/toml"
+	"github.com/robustirc/robustirc/internal/config"
+""")],
+    [("internal/api/getconfig.go:HTTP.currentNetworkConfig", "IRCServer.Config", "R")])
+
+M["a02-copy-used-after-explicit-unlock"] = ("handleGetConfig copies Config under RLock, unlocks explicitly, then encodes the copy", [
+    ("internal/api/getconfig.go", """	i.ConfigMu.RLock()
+	defer i.ConfigMu.RUnlock()
+	w.Header().Set("X-RobustIRC-Config-Revision", strconv.FormatUint(i.Config.Revision, 10))
+	if err := toml.NewEncoder(w).Encode(&i.Config); err != nil {""", """	i.ConfigMu.RLock()
+	cfg := i.Config
+	i.ConfigMu.RUnlock()
+	w.Header().Set("X-RobustIRC-Config-Revision", strconv.FormatUint(cfg.Revision, 10))
+	if err := toml.NewEncoder(w).Encode(&cfg); err != nil {""")],
+    [("internal/api/getconfig.go:HTTP.handleGetConfig", "IRCServer.Config", "R")])
+
+M["a03-getsessions-shallow-again"] = ("GetSessions returns shallow copies of the sessions (maps shared) again", [
+    (IRC, """		s := *session
+		s.Channels = make(map[lcChan]bool, len(session.Channels))
+		for channel, joined := range session.Channels {
+			s.Channels[channel] = joined
+		}
+		s.invitedTo = make(map[lcChan]bool, len(session.invitedTo))
+		for channel, invited := range session.invitedTo {
+			s.invitedTo[channel] = invited
+		}
+		result[id] = s""", """		result[id] = *session""")],
+    [(IRC + ":IRCServer.GetSessions", "Session.Channels", "R"), (IRC + ":IRCServer.GetSessions", "Session.invitedTo", "R")])
+
+M["a04-banned-map-handed-out"] = ("a new exported getter returns the live Banned map read under ConfigMu.RLock", [
+    (IRC, """func (i *IRCServer) Banned(remoteAddr string) string {""", """// BannedAddresses returns the GLINEd addresses.
+func (i *IRCServer) BannedAddresses() map[string]string {
+	i.ConfigMu.RLock()
+	defer i.ConfigMu.RUnlock()
+	return i.Config.Banned
+}
+
+func (i *IRCServer) Banned(remoteAddr string) string {""")],
+    [(IRC + ":IRCServer.BannedAddresses", "IRCServer.Config", "R")])
+
 # ---- negative controls: behaviour-preserving refactorings must not be flagged
 M["n01-explicit-unlock"] = ("NumSessions with explicit RUnlock instead of defer", [
     (IRC, """	i.sessionsMu.RLock()
@@ -243,6 +305,14 @@ M["n04-unlocked-read-of-immutable-after-init"] = ("a handler reads the immutable
 		return
 	}
 """)], [])
+
+
+M["n05-copy-stays-inside-critical-section"] = ("configRevision copies Config under the (deferred) read lock and returns only the revision", [
+    ("internal/api/postconfig.go", """	defer i.ConfigMu.RUnlock()
+	return i.Config.Revision""", """	defer i.ConfigMu.RUnlock()
+	cfg := i.Config
+	_ = len(cfg.Banned)
+	return cfg.Revision""")], [])
 
 
 def sh(*a, **k):
